@@ -2462,7 +2462,11 @@ impl<T: PPGEvaluatorStrategy> PPGEvaluator<T> {
                     // but if you don't have an upstream,
                     // ande the strategy says 'already done',
                     // this is the only time we can get them invalidated
+                    // (an Ephemeral whose own records were dropped - it failed last time -
+                    // while its edge records survived must not be considered validated)
                     !Self::has_upstreams(&self.dag, node_idx)
+                        || (matches!(job.state, JobState::Ephemeral(_))
+                            && !self.history.contains_key(&job.job_id))
                 }
             };
             let job = &mut self.jobs[node_idx as usize];
